@@ -1592,9 +1592,13 @@ sim::CaseResult PlanSim::run(const sim::Options &o, const Json &plan)
                     }
                     catch (ompl::Exception &)
                     {
-                        // the planner refuses this configuration (BIT* on a space its informed sampler does not support):
-                        // solve() will say so itself; nothing to compare
+                        // the planner refuses this configuration (BIT* on a space its informed sampler does not support), as
+                        // its solve() would have by calling setup() itself: the history ends here, like any refused solve
+                        // (calling solve() on a planner whose setup() threw is not something the statement quantifies over)
                         refRun = false;
+                        res.probes["solve-refused-configuration(ompl::Exception)"]++;
+                        c.outcomes.insert("refused");
+                        break;
                     }
                 }
                 long drawsA = 0;
